@@ -79,6 +79,22 @@ def step (t : List String) : String :=
       let ws := xs.drop (3 * n)
       showFloats ((lmmPath1F opsF gammas fwd0 taus ws).flatMap id)
     | _, _ => "bad-op"
+  | "CAPF" :: isCap :: n :: rest =>
+    match nat? isCap, nat? n, floats? rest with
+    | some ic, some n, some (k :: f00 :: xs) =>
+      let taus := xs.take n
+      let pths := chunks n (xs.drop n)
+      let vals := pths.map fun ls => capFlrPath opsF (ic == 1) k f00 ls taus
+      showFloats ((List.range n).map fun i => sumL (vals.map fun v => v.getD i 0) / Float.ofNat pths.length)
+    | _, _, _ => "bad-op"
+  | "ASN" :: isCall :: nobs :: rest =>
+    match nat? isCall, nat? nobs, floats? rest with
+    | some ic, some nobs, some (t0 :: t :: tau :: k :: acc :: s :: r :: q :: v :: xs) =>
+      let nAdj := asianNAdj t0 t tau nobs
+      let (k', mult, t0', dt) := asianSchedule t0 t tau k acc nAdj
+      let pths := (chunks (nAdj + 1) xs).map fun p => (p.headD 0, p.drop 1)
+      showFloat (asianFastMC opsF (ic == 1) (r - q) v r t t0' dt k' mult s pths)
+    | _, _, _ => "bad-op"
   | "UDT" :: n :: rest =>
     match nat? n, floats? rest with
     | some n, some (u :: xs) => showFloat (uniformToDefaultTime opsF u (xs.take n) (xs.drop n))
